@@ -46,6 +46,7 @@ for area in AREAS:
             if os.path.exists(os.path.dirname(pd)+'/notes.md'): shutil.copy(os.path.dirname(pd)+'/notes.md', dst)
         else:
             name=os.path.basename(os.path.dirname(pd))
+        if os.environ.get('ITEMS') and name not in os.environ['ITEMS'].split(','): continue
         sh(f'git -C {wt} checkout -- . && git -C {wt} clean -fdq')
         a=sh(f'git -C {wt} apply {pd}')
         if a.returncode!=0:
